@@ -183,7 +183,10 @@ impl Directory {
     )]
     #[cfg_async_filter]
     async fn fn_name(&self, output: &mut input_traits, compression: Compression) -> Result<()> {
-        let mut writer = compress(compression, output)?;
+        // serialize into memory first, so errors that occur while the
+        // compression stream is finished can not get lost
+        let mut buffer = Vec::<u8>::new();
+        let mut writer = compress(compression, &mut buffer)?;
 
         write_varint([writer], [self.entries.len()])?;
 
@@ -225,6 +228,9 @@ impl Directory {
         }
 
         add_await([writer.flush()])?;
+        drop(writer);
+
+        add_await([output.write_all(&buffer)])?;
 
         Ok(())
     }
